@@ -1,11 +1,9 @@
 import MtxVerif.Model.C26
 open MtxVerif MtxVerif.C26
 
-/-- which variant of `Decode` the implementation is (decided by the `probe` op on canonical witnesses):
-`anchored` = the regex is `^…$`; `coherent` = repeated placeholders must capture equal texts. -/
+/-- the driver is stateless: the model is `decode` = anchored + coherent (the code since 2f5d4aa). -/
 structure D where
-  anchored : Bool := false
-  coherent : Bool := false
+  unit : Unit := ()
 
 abbrev Table := List (DateArgs × Int)
 
@@ -32,7 +30,7 @@ def resolve (tb : Table) : Start → Option Int
   | .unix us => some us
   | .date a => (tb.find? (·.1 = a)).map (·.2)
 
-def matchV (d : D) (toks : List Tok) (s : Bytes) : Option Match := decodeV d.anchored d.coherent toks s
+def matchV (_ : D) (toks : List Tok) (s : Bytes) : Option Match := decode toks s
 
 def fmtDec (tb : Table) : Option Match → Option String
   | none => some "no"
@@ -60,20 +58,12 @@ def rtVerdict (flow : String) (toks : List Tok) (name : Bytes) (F : Fields) (tb 
       if wantPath.isSome ∧ wantPath != some p then some s!"{flow}: recognised with a different path name"
       else if unamb ∧ ius != expUs then some s!"{flow}: recognised with a different start instant"
       else none
-  match bad with
-  | none => none
-  | some msg =>
-    if unanchoredExtra toks name then some ("KNOWN unanchoredExtra " ++ msg)
-    else if repeatedMismatch toks name then some ("KNOWN repeatedPlaceholder " ++ msg)
-    else some ("FAIL " ++ msg)
+  let _ := name
+  bad.map fun msg => "FAIL " ++ msg
 
 def step (d : D) (op impl : String) : D × DrvOut :=
   match words op with
-  | ["reset"] =>
-    -- impl: "<suffix accepted 0/1> <prefix accepted 0/1> <incoherent accepted 0/1>"
-    match words impl with
-    | [a, b, c] => ({ anchored := a == "0" && b == "0", coherent := c == "0" }, { model := impl })
-    | _ => (d, { model := "bad-probe", spec := "FAIL unparsable probe answer" })
+  | ["reset"] => (d, { model := "ok" })
   | ["rt", _zone, _tloc, fmtH, pathH, usS, "|", y, mo, dd, h, mi, s, f, off, unix, "|", tbS] =>
     match Hex.decode fmtH, Hex.decode pathH, usS.toInt?, y.toInt?, mo.toNat?, dd.toNat?, h.toNat?, mi.toNat?,
       s.toNat?, f.toNat?, off.toInt?, unix.toInt? with
@@ -116,9 +106,9 @@ def step (d : D) (op impl : String) : D × DrvOut :=
         else if impl.startsWith "ok" then
           if producibleB toks cand then "ok"
           else if unanchoredExtra toks cand then
-            "KNOWN unanchoredExtra recognised as a segment although only part of the name matches the format"
+            "FAIL recognised as a segment although only part of the name matches the format (regression of F-C26)"
           else if repeatedMismatch toks cand then
-            "KNOWN repeatedPlaceholder recognised as a segment although a repeated placeholder matched different texts"
+            "FAIL recognised as a segment although a repeated placeholder matched different texts (regression of F-C26)"
           else "FAIL recognised as a segment although the recorder cannot produce this name"
         else "FAIL implementation panicked or gave an unparsable answer"
       (d, { model, spec })
